@@ -42,3 +42,86 @@ pub fn tx(n: u32) -> Transaction {
 pub fn format_model(_a: std::fmt::Arguments<'_>) -> String {
     String::new()
 }
+
+// ---------------------------------------------------------------------------------------------------
+// Harness utilities (universe of users / uuids / appointments / trackers)
+use crate::extended_appointment::{ExtendedAppointment, UUID};
+use crate::responder::{ConfirmationStatus, TransactionTracker};
+use bitcoin::secp256k1::PublicKey;
+use teos_common::appointment::{Appointment, Locator};
+use teos_common::UserId;
+
+/// Largest blob length the unit harnesses range over (9 slots); the slot formula itself is decided for all lengths
+/// up to 2^24 in teos-common.
+pub const MAX_BLOB: usize = 16384 + 2048;
+
+/// User `i` (pure-Rust `PublicKey` of secp256k1's `secp256k1_fuzz` cfg: 64 raw bytes, byte-wise Eq/Hash).
+pub fn user(i: u8) -> UserId {
+    let mut b = [0u8; 64];
+    b[0] = i;
+    UserId(PublicKey::from(unsafe { bitcoin::secp256k1::ffi::PublicKey::from_array_unchecked(b) }))
+}
+
+pub fn locator(i: u8) -> Locator {
+    let mut b = [0u8; 16];
+    b[0] = i;
+    Locator::from_slice(&b).unwrap()
+}
+
+pub fn uuid(i: u8) -> UUID {
+    let mut b = [0u8; 20];
+    b[0] = i;
+    UUID::from_slice(&b).unwrap()
+}
+
+/// `UUID::new` model (RIPEMD160(locator || user)): injective on the harness universe.
+pub fn uuid_model(l: Locator, u: UserId) -> UUID {
+    let mut b = [0u8; 20];
+    b[0] = l.to_vec()[0];
+    b[1] = u.0.serialize()[1];
+    b[2] = 0xaa;
+    UUID::from_slice(&b).unwrap()
+}
+
+/// A blob whose *length* is symbolic (<= MAX_BLOB) and whose contents are never read by the code under test.
+pub fn blob_of_len(len: usize) -> Vec<u8> {
+    kani::assume(len <= MAX_BLOB);
+    let mut v: Vec<u8> = Vec::with_capacity(MAX_BLOB);
+    unsafe { v.set_len(len) };
+    v
+}
+
+pub fn ext_appointment(loc: u8, owner: UserId, blob_len: usize) -> ExtendedAppointment {
+    ExtendedAppointment::new(
+        Appointment::new(locator(loc), blob_of_len(blob_len), 42),
+        owner,
+        String::new(),
+        7,
+    )
+}
+
+pub fn tracker(i: u8, owner: UserId, status: ConfirmationStatus) -> TransactionTracker {
+    TransactionTracker { dispute_tx: tx(100 + i as u32), penalty_tx: tx(200 + i as u32), status, user_id: owner }
+}
+
+/// Result of the last `recover_pk` stub call: Some(k) = recovered the key of `user(k)`, None = recovery failed.
+pub static mut RECOVERED: Option<u8> = None;
+
+/// `cryptography::recover_pk` stub: *any* outcome (failure, or any of the keys user(0..=2); user(2) is never registered).
+pub fn recover_pk_any(_msg: &[u8], _sig: &str) -> Result<PublicKey, bitcoin::secp256k1::Error> {
+    if kani::any() {
+        let k: u8 = kani::any();
+        kani::assume(k <= 2);
+        unsafe { RECOVERED = Some(k) };
+        Ok(user(k).0)
+    } else {
+        unsafe { RECOVERED = None };
+        Err(bitcoin::secp256k1::Error::InvalidSignature)
+    }
+}
+
+/// Cheap identity of a harness user: the first raw byte of the (fuzz-cfg) public key. `user(i)` are pairwise distinct in
+/// that byte, so this decides equality on the harness universe without a 64-byte comparison.
+pub fn uid(u: &UserId) -> u8 {
+    unsafe { *(bitcoin::secp256k1::ffi::CPtr::as_c_ptr(&u.0) as *const u8) }
+}
